@@ -58,6 +58,7 @@ func runC11(w *core.World, r *core.Report) {
 	r.Rule("R4", "fs: the name joined to the directory cannot contain path separators")
 	r.Rule("R5", "fs: only injective transformations between ToKey and the storage primitive")
 	r.Rule("R6", "context setters store their argument on every path")
+	r.Rule("R7", "the persister selects its session on the store unconditionally (WithSession, or every Save and Load)")
 
 	bes := dbBackends(w, r)
 	r.Floor("R2", "db.Db implementations", len(bes), 3)
@@ -215,4 +216,41 @@ func runC11(w *core.World, r *core.Report) {
 
 	// ---- R6 -----------------------------------------------------------------------------------
 	checkContextSetters(w, r, "R6")
+
+	// ---- R7 -----------------------------------------------------------------------------------
+	selects := func(fn *ssa.Function) bool {
+		if fn == nil {
+			return false
+		}
+		var sel func(f *ssa.Function, depth int) bool
+		sel = func(f *ssa.Function, depth int) bool {
+			if depth > 2 || len(f.Blocks) == 0 {
+				return false
+			}
+			cut := core.NewCut()
+			n := 0
+			for _, c := range core.Calls(f) {
+				if core.IsCallTo(c, "db.Db.SetSession") {
+					cut.AddInstr(c.(ssa.Instruction))
+					n++
+				} else if g := core.StaticCallee(c); g != nil && core.PkgOf(g) == "persist" && g != f && sel(g, depth+1) {
+					cut.AddInstr(c.(ssa.Instruction))
+					n++
+				}
+			}
+			if n == 0 {
+				return false
+			}
+			in, _ := core.Reach(core.Entry(f), core.IsReturn, cut)
+			return in == nil
+		}
+		return sel(fn, 0)
+	}
+	ws := anchor(w, r, "persist", "(*Persister).WithSession")
+	sv, ld := w.Func("persist", "(*Persister).Save"), w.Func("persist", "(*Persister).Load")
+	if ws != nil {
+		ok := selects(ws) || (selects(sv) && selects(ld))
+		r.Check(ok, "R7", "persist.(*Persister): session selected unconditionally", ws.Pos(), "db.SetSession on every path",
+			"the persister applies its session id to the store only on some paths (for instance not for the empty session): on a shared handle it then loads and overwrites the state of whichever session was selected last")
+	}
 }
